@@ -9,19 +9,23 @@ WT=/tmp/seed_${ID}${SUF}; OUT=/tmp/seed_${ID}${SUF}_out
 HEAD=$(git -C /repo rev-parse HEAD)
 cd "$WT" || exit 2
 git checkout -q -- . ; git clean -fdq -e target ; git checkout -q --detach "$HEAD" || exit 2
-TESTNAME=$(sed -n 's/.*--offline[ ]*\(-- \)\?\([A-Za-z0-9_:]*\).*/\2/p' "$OUT/demo_cmd.txt" | head -1)
+TESTNAME=$(grep -E "cargo (test|nextest)" "$OUT/demo_cmd.txt" | head -1 | awk '{print $NF}')
+FEAT=""
+grep -q -- "--features verif" "$OUT/demo_cmd.txt" && FEAT="--features verif"
 [ -n "$TESTNAME" ] || { echo "cannot extract test name"; exit 2; }
 git apply "$OUT/demo.diff" || { echo "demo.diff does not apply on HEAD"; exit 3; }
-cargo test --workspace --offline "$TESTNAME" > "$OUT/v_demo_clean.log" 2>&1; R1=$?
+cargo test --workspace --offline $FEAT "$TESTNAME" > "$OUT/v_demo_clean.log" 2>&1; R1=$?
 git apply "$OUT/patch.diff" || { echo "patch.diff does not apply on HEAD"; exit 3; }
-cargo test --workspace --offline "$TESTNAME" > "$OUT/v_demo_patched.log" 2>&1; R2=$?
+cargo test --workspace --offline $FEAT "$TESTNAME" > "$OUT/v_demo_patched.log" 2>&1; R2=$?
 git apply -R "$OUT/demo.diff"
 cargo nextest run --workspace --no-fail-fast --offline --test-threads 8 > "$OUT/v_suite_patched.log" 2>&1; R3=$?
 SUITE=$(grep -E "Summary" "$OUT/v_suite_patched.log" | tail -1)
 NRUN=$(grep -c "test result: ok" "$OUT/v_demo_clean.log")
 echo "$ID$SUF: demo_on_clean=$R1 demo_with_patch=$R2 suite_with_patch=$R3 [$SUITE]"
 git checkout -q -- . ; git clean -fdq -e target
-if [ $R1 -eq 0 ] && [ $R2 -ne 0 ] && [ $R3 -eq 0 ]; then
+NPASS=$(grep -E "^test .* ok$" "$OUT/v_demo_clean.log" | wc -l)
+echo "   demo tests passing on clean tree: $NPASS"
+if [ $R1 -eq 0 ] && [ $NPASS -ge 1 ] && [ $R2 -ne 0 ] && [ $R3 -eq 0 ]; then
   D=/verif/seeded/${ID}${SUF}; mkdir -p "$D"
   cp "$OUT/patch.diff" "$OUT/demo.diff" "$OUT/demo_cmd.txt" "$OUT/NOTES.md" "$D/"
   python3 - "$ID" "$D" "$HEAD" "$SUITE" "$TESTNAME" <<'PY'
